@@ -83,7 +83,11 @@ def readFolders (offset folderResv : Nat) : Nat → Rd → List CFolder → Exce
 def resolveFolder (fidx numFolders : Nat) : Option Nat :=
   if fidx < cffileCONTINUED_FROM_PREV then
     if fidx < numFolders then some fidx else none
-  else if fidx = cffileCONTINUED_FROM_PREV ∨ fidx = cffileCONTINUED_PREV_AND_NEXT then some 0
+  else if fidx = cffileCONTINUED_PREV_AND_NEXT then
+    -- continued from the previous AND into the next cabinet: its folder is both the first and the last one of
+    -- this cabinet, so there is exactly one (otherwise the entry is refused like a bad index)
+    if numFolders = 1 then some 0 else none
+  else if fidx = cffileCONTINUED_FROM_PREV then some 0
   else some (numFolders - 1)
 
 def readFiles (numFolders : Nat) (salvage : Bool) :
